@@ -387,7 +387,7 @@ func (c *FnCtx) useContract(fr *Frame, st *State, ct *FuncContract, callee *ssa.
 			if r.Label != "" {
 				lbl += ":" + r.Label
 			}
-			c.addObl("pre@"+lbl, "", nil, st, g, r)
+			c.addObl("pre@"+lbl, "", r.Props, st, g, r)
 		}
 		st.pc = c.vc.Name("pc", And(st.pc, g))
 	}
@@ -649,6 +649,15 @@ func (c *FnCtx) modHeapNames(ct *FuncContract, m *Clause) (map[string]Sort, bool
 	parts := strings.SplitN(m.Text, "::", 2)
 	tn, fn := strings.TrimSpace(parts[0]), strings.TrimSpace(parts[1])
 	switch tn {
+	case "elem":
+		// whole element heap of one element type: `elem::*Item`
+		t := c.eng.specType(c.eng.typesPkg(ct.Pkg), fn)
+		if t == nil {
+			return nil, false
+		}
+		ms := newModSet()
+		c.addLoc(ms, "elem$"+typeKey(t), t, true, 0)
+		return ms.heaps, true
 	case "ghost":
 		g := c.eng.ghost(c.eng.typesPkg(ct.Pkg), fn)
 		if g == nil {
